@@ -227,9 +227,9 @@ def gen_C14(tier, seed):
         p.write(101, fname='fresh.dlis')
         progs.append(p.build())
     # mutate after a write: new value / units / origin reference / data, then compare with a fresh build of the result
-    for i in range(20 if tier == 'quick' else 200):
+    for i in range(24 if tier == 'quick' else 240):
         p = Prog(f'C14-mutate-{i}', {'kind': 'mutate'})
-        what = ['value', 'units', 'origin_ref', 'data', 'window'][i % 5]
+        what = ['value', 'units', 'origin_ref', 'data', 'window', 'rename', 'rename_src', 'reorigin_src'][i % 8]
         p.file(1, vrl=256)
         lf = p.lf(1, lf=1, fh_id='THE-FILE')
         o = p.origin(lf, name='ORIGIN')
@@ -238,6 +238,10 @@ def gen_C14(tier, seed):
         fr = p.frame(lf, 'FRAME', [c1, c2])
         z = p.add(lf, 'zone', 'ZONE', description=S('before'))
         pa = p.add(lf, 'parameter', 'PARAM', zones=L(R(z)), values=L(F(2.5)))
+        tl = p.add(lf, 'tool', 'TOOL-A', description=S('the source'))
+        p.set(c2, 'source', R(tl))
+        p.add(lf, 'group', 'GROUP', object_list=L(R(z), R(tl)))
+        p.add(lf, 'computation', 'COMP', source=R(tl))
         a1, b1 = p.array(np.arange(4, dtype='float64')), p.array(rand_array(rng, 'int16', 4))
         a2, b2 = p.array(np.arange(6, dtype='float32') * 2), p.array(rand_array(rng, 'float32', 6))
         p.write(1, route='dict', data_arrays={c1: a1, c2: b1}, fname='first.dlis')
@@ -249,6 +253,13 @@ def gen_C14(tier, seed):
         elif what == 'origin_ref':
             p.origin(lf, name='SECOND', fsn=2, origin_reference=9)
             p.set_origin_ref(z, 9)
+        elif what == 'rename':
+            p.rename(z, 'ZONE-RENAMED')
+        elif what == 'rename_src':
+            p.rename(tl, 'TOOL-B')
+        elif what == 'reorigin_src':
+            p.origin(lf, name='SECOND', fsn=2, origin_reference=9)
+            p.set_origin_ref(tl, 9)
         elif what == 'data':
             kw2 = {'data_arrays': {c1: a2, c2: b2}}
         elif what == 'window':
@@ -269,6 +280,17 @@ def gen_C14(tier, seed):
         if what == 'value':
             p.set(z, 'description', S('after'))
         pa = p.add(lf, 'parameter', 'PARAM', zones=L(R(z)), values=L(F(2.5)))
+        tl = p.add(lf, 'tool', 'TOOL-A', description=S('the source'))
+        p.set(c2, 'source', R(tl))
+        p.add(lf, 'group', 'GROUP', object_list=L(R(z), R(tl)))
+        p.add(lf, 'computation', 'COMP', source=R(tl))
+        if what == 'rename':
+            p.rename(z, 'ZONE-RENAMED')
+        if what == 'rename_src':
+            p.rename(tl, 'TOOL-B')
+        if what == 'reorigin_src':
+            p.origin(lf, name='SECOND', fsn=2, origin_reference=9)
+            p.set_origin_ref(tl, 9)
         if what == 'origin_ref':
             p.origin(lf, name='SECOND', fsn=2, origin_reference=9)
             p.set_origin_ref(z, 9)
